@@ -231,8 +231,14 @@ public:
     void *alloc(std::size_t sz) {
         void *ptr = Alloc::alloc(sz+sizeof(T));
         void *inv = static_cast<std::uint8_t *>(ptr)+sz;
-        inventory = new(inv) T(_factory());
-       return ptr;
+        try {
+            inventory = new(inv) T(_factory());
+        } catch (...) {
+            //the factory failed - no object has been constructed, only give the memory back
+            Alloc::dealloc(ptr, sz+sizeof(T));
+            throw;
+        }
+        return ptr;
     }
 
     static void dealloc(void *ptr, std::size_t sz) {
